@@ -330,6 +330,9 @@ class IntroVisitor(ast.NodeVisitor):
         # This is a bit brute-force but it should be good enough in practice for most cases:
         # all the lines up to the end of the call (a call may span several lines).
         # TODO: refine it based of the nested parse tree?
+        # The arguments are evaluated before the call itself: the calls they contain are interactions that
+        # precede this one (dds.keep(p, f, helper()) depends on helper).
+        self.generic_visit(node)
         last_line = max(node.lineno + 1, getattr(node, "end_lineno", None) or 0)
         function_body_hash = dds_hash(self._body_lines[:last_line])
         # The list of all the previous interactions.
@@ -353,7 +356,6 @@ class IntroVisitor(ast.NodeVisitor):
         # str is the underlying type of a DDSPath
         if fi_or_p is not None and isinstance(fi_or_p, str):
             self.load_paths.append(fi_or_p)
-        self.generic_visit(node)
 
     def visit_Assign(self, node: ast.Assign) -> Any:
         targets = get_assign_targets(node)
